@@ -14,7 +14,8 @@ EXTENDS Naturals, FiniteSets, Sequences, TLC, Json
 
 CONSTANTS EP, Strategies, Fallbacks,
           CTypes,     \* GEN: what the request says its body is ("json", "form" = curl -d's default, "none" = nothing;
-                      \* "bigjson" = JSON of 1.6 MiB, more than the inspector reads)
+                      \* "bigjson" = JSON of 1.6 MiB, more than the inspector reads; "oddpath" = JSON sent to a path
+                      \* no profile declares)
           Spellings   \* GEN: how the request spells the model relative to the listings ("exact", "case", "tag", "uid", "alias")
 
 VARIABLES strategy, fallback, refresh,   \* configuration
